@@ -132,6 +132,9 @@ type Master struct {
 	AutoOffers bool
 	// OfferFilter lets a scenario restrict which agents are offered.
 	OfferFilter func(a *Agent) bool
+	// OfferDelay > 0: the offers answering a REVIVE are sent that much later, from another goroutine
+	// (a real master offers at its next allocation cycle, not inside the REVIVE call). 0 = at once.
+	OfferDelay time.Duration
 
 	ln   net.Listener
 	srv  *http.Server
@@ -534,7 +537,15 @@ func (m *Master) streamGone(ch chan *scheduler.Event) {
 func (m *Master) process(c *scheduler.Call) {
 	switch c.GetType() {
 	case scheduler.Call_REVIVE:
-		if m.AutoOffers {
+		if m.AutoOffers && m.OfferDelay > 0 {
+			d := m.OfferDelay
+			go func() {
+				time.Sleep(d)
+				m.mu.Lock()
+				defer m.mu.Unlock()
+				m.sendOffersLocked()
+			}()
+		} else if m.AutoOffers {
 			m.sendOffersLocked()
 		}
 	case scheduler.Call_ACCEPT:
